@@ -151,14 +151,14 @@ WithPrim(v, h, name, args, K(_, _)) ==
 RunSigExt(v) == IF Bad(v) \/ ~TT(v).plug THEN v ELSE [v EXCEPT !.obs.plug = @ + v.cfg.nsig]
 
 ----------------------------------------------------------------------------
-\* Small-integer arithmetic natively, everything else through a primitive.
+\* Multiplication of operands up to 64 bytes together and small division natively (BigInt), the rest through a primitive.
 FloorDiv(a, b) == IF b > 0 THEN a \div b ELSE (-a) \div (-b)
 PyMod(a, b) == a - b * FloorDiv(a, b)
 
 Arith2(v, h, name, x, y, K(_, _)) == \* x, y BigInt; K(state, BigInt result)
     IF Bad(v) THEN v
     ELSE IF name \in {"div", "mod"} /\ IsZero(y) THEN Raise(v, "ZeroDivisionError")
-    ELSE IF name = "mul" /\ Len(x.mag) + Len(y.mag) <= 3 THEN K(v, FromInt(ToInt(x) * ToInt(y)))
+    ELSE IF name = "mul" /\ Len(x.mag) + Len(y.mag) <= 64 THEN K(v, Mul(x, y))          \* schoolbook on limbs
     ELSE IF name = "div" /\ IsSmall(x) /\ IsSmall(y) THEN K(v, FromInt(FloorDiv(ToInt(x), ToInt(y))))
     ELSE IF name = "mod" /\ IsSmall(x) /\ IsSmall(y) THEN K(v, FromInt(PyMod(ToInt(x), ToInt(y))))
     ELSE WithPrim(v, h, name, <<EncS(x), EncS(y)>>, LAMBDA a, r : K(a, DecS(r[1])))
